@@ -1664,4 +1664,140 @@ Proof.
     pose proof (Hx1 W1 _ _ W E1) as G1. pose proof (Hx2 W2 _ _ (CG_wf _ _ _ _ _ G1) H) as G2.
     eapply CG_cast; [eapply CG_trans; [apply (CG_frame true 0 1 a); exact G1|apply (CG_frame true 0 1 (1 + a)); exact G2]|reflexivity|lia].
 Qed.
+
+(* a deferred argument: its own code object in the shared pool, then OP_CONST of it *)
+Lemma thunk_CG x st sub st'' ty a :
+  cstmt x -> awf fe x -> cs_wf st ->
+  cmp x (cs_empty (cs_rpool st) (cs_plen st)) = COk sub ->
+  emit_const (CThunk (rev (cs_rcode (emit_op OP_RETURN sub))) ty)
+             (emit_op OP_CONST (mkCS (cs_rcode st) (cs_clen st) (cs_rpool sub) (cs_plen sub))) = COk st'' ->
+  CG true a (S a) st st''.
+Proof.
+  intros Hx Wx W Hsub Hem.
+  assert (W0 : cs_wf (cs_empty (cs_rpool st) (cs_plen st))).
+  { destruct W as [W1 W2]. split; [reflexivity|exact W2]. }
+  destruct (Hx Wx _ _ W0 Hsub) as (Wsub & frag & newp & C & P & Nn & HF).
+  change (code_of (cs_empty (cs_rpool st) (cs_plen st))) with (@nil N) in *. cbn [app] in C.
+  change (pool_of (cs_empty (cs_rpool st) (cs_plen st))) with (pool_of st) in P.
+  set (stX := mkCS (cs_rcode st) (cs_clen st) (cs_rpool sub) (cs_plen sub)) in *.
+  assert (WX : cs_wf stX) by (destruct W, Wsub; split; assumption).
+  assert (G1 : CG false a a st stX).
+  { split; auto. exists [], newp. rewrite app_nil_r. repeat split; auto; try discriminate.
+    - apply FR_nil.
+    - apply HF. exact H. }
+  eapply CG_trans; [exact G1|].
+  eapply (CG_opc OP_CONST _ stX st'' a (S a) 0 1); eauto; try reflexivity; try lia.
+  - intros pool v Hn. cbn [effect d_op d_const]. rewrite Hn. reflexivity.
+  - intros pool body rt Hx' E.
+    assert (Eb : rev (cs_rcode (emit_op OP_RETURN sub)) = frag ++ [op_byte OP_RETURN]) by (rewrite <- C; reflexivity).
+    rewrite Eb in E. inversion E; subst body.
+    apply verify_of_FR; [apply decode_op_byte|].
+    destruct (emit_const_spec _ _ _ (wf_emit_byte _ _ WX) Hem) as (hi & lo & _ & P'' & _).
+    unfold emit_op in P''. rewrite pool_emit_byte in P''.
+    change (pool_of stX) with (pool_of sub) in P''. rewrite P'' in Hx'.
+    apply (HF pool). eapply pool_ext_app; eauto.
+Qed.
+
+Lemma cargs_CG sg l : Forall cstmt l -> Forall (awf fe) l ->
+  forall i st st' a, cs_wf st -> cargs ops orc fe sg l i st = COk st' -> CG (nonempty l) a (len l + a) st st'.
+Proof.
+  intros HC. induction HC as [|x r Hx Hr IH]; intros HW i st st' a W H.
+  - cbn in H. inversion H; subst. apply CG_refl; auto.
+  - inversion HW as [|? ? Wx Wr]; subst. cbn [cargs] in H.
+    assert (Hstep : exists st1, CG true a (S a) st st1 /\ cargs ops orc fe sg r (S i) st1 = COk st').
+    { destruct (s_lazy sg).
+      - destruct (cmp x (cs_empty (cs_rpool st) (cs_plen st))) as [sub| |] eqn:E1; cbn [cbind] in H; try discriminate.
+        match type of H with context [emit_const ?c ?s] => destruct (emit_const c s) as [st1| |] eqn:E2 end;
+          cbn [cbind] in H; try discriminate.
+        exists st1. split; [eapply thunk_CG; eauto|exact H].
+      - destruct (cmp x st) as [st1| |] eqn:E1; cbn [cbind] in H; try discriminate.
+        exists st1. split; [|exact H].
+        eapply CG_cast; [apply (CG_frame true 0 1 a); apply Hx; eauto|reflexivity|reflexivity]. }
+    destruct Hstep as (st1 & G1 & H1).
+    pose proof (IH Wr _ _ _ (S a) (CG_wf _ _ _ _ _ G1) H1) as G2.
+    destruct r as [|y r'].
+    + cbn in H1. inversion H1; subst. cbn [nonempty]. eapply CG_cast; [exact G1|reflexivity|reflexivity].
+    + cbn [nonempty] in *. eapply CG_cast; [eapply CG_trans; [exact G1|exact G2]|reflexivity|].
+      unfold len; cbn [List.length]; lia.
+Qed.
+
+Definition bstmt (br : aexpr + bool) : Prop := match br with inl e => cstmt e /\ awf fe e | inr _ => True end.
+
+Lemma cbranch_CG br st st' : bstmt br -> cs_wf st -> cbranch ops orc fe br st = COk st' -> CG true 0 1 st st'.
+Proof.
+  intros Hb W H. destruct br as [e|b]; cbn [cbranch bstmt] in *.
+  - destruct Hb as [H1 H2]. apply H1; auto.
+  - eapply (CG_opc OP_CONST _ st st' 0 1 0 1); eauto; try reflexivity.
+    + intros pool v Hn. cbn [effect d_op d_const]. rewrite Hn. reflexivity.
+    + intros pool body rt _ E. discriminate E.
+Qed.
+
+Lemma ccond_CG c t e st st' :
+  cstmt c -> awf fe c -> bstmt t -> bstmt e -> cs_wf st ->
+  ccond ops orc fe c t e st = COk st' -> CG true 0 1 st st'.
+Proof.
+  intros Hc Wc Ht He W H. unfold ccond in H.
+  destruct (cmp c st) as [st1| |] eqn:E1; cbn [cbind] in H; try discriminate.
+  destruct (Hc Wc _ _ W E1) as (W1 & fc & n1 & C1 & P1 & _ & F1).
+  set (st2 := emit_op OP_IF_TRUE st1) in *.
+  destruct (emit16 0 st2) as [st3| |] eqn:E3; cbn [cbind] in H; try discriminate.
+  apply emit16_spec in E3 as [E3 _].
+  destruct (cbranch ops orc fe t st3) as [st4| |] eqn:E4; cbn [cbind] in H; try discriminate.
+  destruct (emit16 0 (emit_op OP_JUMP st4)) as [st6| |] eqn:E6; cbn [cbind] in H; try discriminate.
+  apply emit16_spec in E6 as [E6 _].
+  destruct (cbranch ops orc fe e st6) as [st7| |] eqn:E7; cbn [cbind] in H; try discriminate.
+  match type of H with context [patch16 ?o ?v st7] => destruct (patch16 o v st7) as [st8| |] eqn:E8 end;
+    cbn [cbind] in H; try discriminate.
+  assert (W2 : cs_wf st2) by (apply wf_emit_byte; auto).
+  assert (W3 : cs_wf st3) by (subst st3; apply wf_emit_byte, wf_emit_byte; auto).
+  destruct (cbranch_CG _ _ _ Ht W3 E4) as (W4 & ft & nt & C4 & P4 & _ & F4).
+  assert (W5 : cs_wf (emit_op OP_JUMP st4)) by (apply wf_emit_byte; auto).
+  assert (W6 : cs_wf st6) by (subst st6; apply wf_emit_byte, wf_emit_byte; auto).
+  destruct (cbranch_CG _ _ _ He W6 E7) as (W7 & fe' & ne' & C7 & P7 & N7 & F7).
+  set (h0 := (0 / 256)%N) in *. set (l0 := (0 mod 256)%N) in *.
+  assert (C3 : code_of st3 = code_of st ++ fc ++ [op_byte OP_IF_TRUE; h0; l0]).
+  { subst st3 st2. unfold emit_op. rewrite !code_emit_byte, C1, <- !app_assoc. reflexivity. }
+  assert (C6 : code_of st6 = code_of st ++ fc ++ [op_byte OP_IF_TRUE; h0; l0] ++ ft ++ [op_byte OP_JUMP; h0; l0]).
+  { subst st6. unfold emit_op. rewrite !code_emit_byte, C4, C3, <- !app_assoc. reflexivity. }
+  assert (P3 : pool_of st3 = pool_of st1) by (subst st3 st2; reflexivity).
+  assert (P6 : pool_of st6 = pool_of st4) by (subst st6; reflexivity).
+  assert (Lc : forall s, cs_wf s -> N.to_nat (cs_clen s) = len (code_of s)).
+  { intros s [Ws _]. rewrite Ws, Nat2N.id, len_code_of. reflexivity. }
+  (* first patch *)
+  destruct (patch16_spec _ _ _ _ (code_of st ++ fc ++ [op_byte OP_IF_TRUE]) h0 l0
+              (ft ++ [op_byte OP_JUMP; h0; l0] ++ fe') E8) as (C8 & P8 & W8 & V8).
+  { rewrite C7, C6, <- !app_assoc. reflexivity. }
+  { rewrite (Lc _ W2). subst st2. unfold emit_op. rewrite code_emit_byte, C1, <- app_assoc. reflexivity. }
+  specialize (W8 W7).
+  (* second patch *)
+  destruct (patch16_spec _ _ _ _
+              (code_of st ++ fc ++ [op_byte OP_IF_TRUE; (cs_clen st6 / 256)%N; (cs_clen st6 mod 256)%N] ++ ft ++ [op_byte OP_JUMP])
+              h0 l0 fe' H) as (C9 & P9 & W9 & V9).
+  { rewrite C8, <- !app_assoc. reflexivity. }
+  { rewrite (Lc _ W5). unfold emit_op. rewrite code_emit_byte, C4, C3, <- !app_assoc. rewrite !len_app. reflexivity. }
+  specialize (W9 W8).
+  split; auto.
+  exists (fc ++ [op_byte OP_IF_TRUE; (cs_clen st6 / 256)%N; (cs_clen st6 mod 256)%N] ++ ft ++
+          [op_byte OP_JUMP; (cs_clen st7 / 256)%N; (cs_clen st7 mod 256)%N] ++ fe'), (n1 ++ nt ++ ne').
+  split; [rewrite C9, <- !app_assoc; reflexivity|].
+  split; [rewrite P9, P8, P7, P6, P4, P3, P1, <- !app_assoc; reflexivity|].
+  split.
+  { intros _ E. apply app_eq_nil in E as [_ E]. discriminate E. }
+  intros pool Hx.
+  assert (Hx7 : pool_ext (pool_of st7) pool) by (rewrite P9, P8 in Hx; exact Hx).
+  assert (Hx4 : pool_ext (pool_of st4) pool) by (rewrite P7, P6 in Hx7; eapply pool_ext_app; eauto).
+  assert (Hx1 : pool_ext (pool_of st1) pool) by (rewrite P4, P3 in Hx4; eapply pool_ext_app; eauto).
+  destruct (F1 pool Hx1) as [FR1 T1]. destruct (F4 pool Hx4) as [FR4 T4]. destruct (F7 pool Hx7) as [FR7 T7].
+  split.
+  - eapply (FR_cond pool (len (code_of st)) (len (code_of st3)) (len (code_of st6)) (len (code_of st7)));
+      try apply decode_op_byte; eauto.
+    + rewrite C3, !len_app. cbn [len List.length]. unfold len. lia.
+    + rewrite C6, C3, !len_app. cbn [len List.length]. unfold len. lia.
+    + rewrite C7, !len_app. reflexivity.
+    + rewrite V8. apply Lc; auto.
+    + rewrite V9. apply Lc; auto.
+  - intros body rt Hin. apply in_app_or in Hin as [Hin|Hin]; [eauto|].
+    apply in_app_or in Hin as [Hin|Hin]; eauto.
+Qed.
+
 End Compiles.
